@@ -74,3 +74,19 @@ Print Assumptions C09_roundtrip_context_calibrator.
 Theorem C09_roundtrip_lookup : forall U l, lookup_wf l -> read_lookup U (write_lookup U l) = Ok l.
 Proof. exact rt_lookup. Qed.
 Print Assumptions C09_roundtrip_lookup.
+
+(* ---- "preserves its meaning", in the words of decoding ----
+   a definition written to XML and read back links and compiles (Model/Compile.v) to the same decoder definition, so every
+   stream decodes to the same items before and after the round trip, whatever the options *)
+From SPP Require Import Model.Values Model.Criteria Model.Doc Model.Loader Model.Compile Model.Generator Proofs.MeaningP.
+Theorem C09_same_definition : forall U sxc lits date d v, doc_wf d -> write_doc U date d = Ok v ->
+  exists d', read_doc U v = Ok d' /\
+    (g <- link sxc d' ;; compile lits g) = (g <- link sxc d ;; compile lits g).
+Proof. exact roundtrip_same_definition. Qed.
+Print Assumptions C09_same_definition.
+Theorem C09_same_decoding : forall U sxc lits date d v def root o k stream, doc_wf d -> write_doc U date d = Ok v ->
+  (g <- link sxc d ;; compile lits g) = Ok def ->
+  exists d' def', read_doc U v = Ok d' /\ (g <- link sxc d' ;; compile lits g) = Ok def' /\
+    packet_generator def' root o k stream = packet_generator def root o k stream.
+Proof. exact roundtrip_same_decoding. Qed.
+Print Assumptions C09_same_decoding.
